@@ -124,6 +124,14 @@ def units(tier, seed):
                 k += 1
                 descs.append(dict(engines=list(eng), gens=1 + k % 3, obj=objs[k % 5], maximize=mx, Mh=3, seed=s + k % 2, kelites=1 + k % 3, pop=pop, pmut=(1.0, 0.5)[k % 2],
                                   sprout={"kind": ("simple", "nbc")[k % 2], "L": 2}))
+    # children sampled with a spread that is large against the box / around a seed in a corner (few draws are accepted), and
+    # levels that optimise different objectives over the same box (a seed is worth something else one level down)
+    for eng in [e for e in shapes_h2() if e[1] in POP_ENGINES][:: (1 if tier == "thorough" else 3)]:
+        k += 1
+        descs.append(dict(engines=list(eng), gens=2, obj=("lin_corner", "sphere_in")[k % 2], maximize=bool(k % 2), Mh=3, seed=s + k % 3, kelites=1 + k % 2, pop=(6, 10)[k % 2],
+                          std_factor=(2.0, 3.5, 1.0)[k % 3], box=("B_dec", "B_3d", "B_asym")[k % 3], sprout={"kind": ("simple", "nbc")[k % 2], "L": 2}))
+        descs.append(dict(engines=list(eng), gens=2, obj=("twofunnel", "sphere_in")[k % 2], maximize=bool(k % 2), Mh=3, seed=s + k % 3, kelites=1 + k % 2, levelshift=True,
+                          sprout={"kind": ("simple", "nbc")[k % 2], "L": 2}))
     us = [{"kind": "run", "descs": c} for c in chunks(descs, 30)]
     ops = []
     for op in ENGINE_OPS:
